@@ -292,6 +292,11 @@ func NodeOf(nv xpath.NodeNavigator) *Node {
 			return nil
 		}
 		return x.Cur
+	case *NavNoMove:
+		if x == nil {
+			return nil
+		}
+		return x.Cur
 	}
 	return nil
 }
@@ -392,4 +397,19 @@ func (n *Nav) MoveTo(o xpath.NodeNavigator) bool {
 	}
 	n.Cur = on.Cur
 	return true
+}
+
+// NavNoMove is a navigator whose MoveTo always fails (the interface allows that: MoveTo reports
+// whether it moved). Callers of the engine that use such navigators rely on NodeIterator falling back to a copy.
+type NavNoMove struct{ Nav }
+
+func (n *NavNoMove) Copy() xpath.NodeNavigator {
+	n.R.tick()
+	c := *n
+	return &c
+}
+func (n *NavNoMove) MoveTo(o xpath.NodeNavigator) bool { n.R.tick(); return false }
+
+func NewNavNoMove(n *Node, rec *Rec) xpath.NodeNavigator {
+	return &NavNoMove{Nav{D: n.Doc, Cur: n, R: rec}}
 }
